@@ -195,6 +195,10 @@ def handle (args : List String) : String :=
         | _, _ => "bad-tree"
       | _, _ => "bad-op"
     | _, _ => "bad-op"
+  | ["specnested", opts, lang, src] =>
+    match readOpts opts, readLang lang, ofHex src with
+    | some o, some l, some b => specNested o l b
+    | _, _, _ => "bad-op"
   | ["spectr", opts, lang, src] =>
     match readOpts opts, readLang lang, ofHex src with
     | some o, some l, some b => specTranscript o l b
